@@ -294,7 +294,7 @@ def rule_after_baseline(ctx):
             continue
         for n in ast.walk(fi2.node):
             if isinstance(n, ast.Attribute) and n.attr == attr and isinstance(n.value, ast.Name) and n.value.id == "run":
-                par_calls = [c for c in calls_in(fi2.node) if isinstance(c.func, ast.Attribute) and c.func.value is n]
+                par_calls = [c for c in calls_in(fi2.node) if isinstance(c.func, ast.Attribute) and c.func.value is n and c.func.attr in ("update", "setdefault", "pop", "popitem", "clear", "__setitem__")]
                 stores = [a for a in ast.walk(fi2.node) if isinstance(a, ast.Assign) and any(isinstance(t, ast.Subscript) and t.value is n for t in a.targets)]
                 if par_calls or stores:
                     writers.append((fi2, [c.func.attr for c in par_calls], bool(stores)))
@@ -325,6 +325,23 @@ def rule_after_baseline(ctx):
                 break
         else:
             ctx.check(n_paths > 0, am.fq, "the baseline is read after the promoted hash jobs of the same request", "no path records a baseline", f"{n_paths} paths")
+    # (e) the baseline only holds inputs the step is given: the job is derived before reset_for_rerun drops the inputs an
+    #     earlier run amended, so those are pruned right after the reset, in the same transaction
+    ej = ctx.prog.func("executor.Executor.execute_job")
+    ok_prune = False
+    for tr, st in flow.paths_of(ej):
+        k = [i for i, e in enumerate(tr) if e[0] == "call" and e[1] == "step.reset_for_rerun"]
+        if not k:
+            continue
+        reg = flow.region_of(tr, k[0], lambda s_: s_.split(".")[-1] == "db")
+        if reg is None:
+            continue
+        inside = tr[k[0]:reg[1]]
+        reads_inputs = any(e[0] == "call" and e[1].split(".")[-1] == "inp_paths" for e in inside)
+        rebinds = any(e[0] == "assign" and e[1] == f"run.{attr}" and f"run.{attr}" in e[2] for e in inside)
+        if reads_inputs and rebinds:
+            ok_prune = True
+    ctx.check(ok_prune, ej.fq, f"after the reset, run.{attr} is narrowed to the inputs the step still has", f"entries for inputs that the reset dropped stay in run.{attr}: when the step amends such an input again, after its producer has rebuilt it, the old hash is taken for what the step read, the step is failed with 'Input changed unexpectedly' and the scheduler drains (with -j 1 the same history succeeds)", "narrowed in the transaction of the reset", where=ctx.where_of(ej))
     # (c) the Run field starts empty, so a run that never passed _new_run falls back to the database
     rn = ctx.prog.cls("run.Run") if hasattr(ctx.prog, "cls") else None
     if rn is not None and asg is not None:
@@ -538,7 +555,7 @@ RULES = [
     Rule("R-C03-5", "amend classifies every input", rule_amend_classification, min_instances=12),
     Rule("R-C03-6", "defer keeps the step wakeable", rule_defer_keeps_wakeable, min_instances=4),
     Rule("R-C03-7", "freshness test orientation and clock bookkeeping", rule_freshness, min_instances=7),
-    Rule("R-C03-9", "the comparison after the command uses the hashes verified at run start", rule_after_baseline, min_instances=10),
+    Rule("R-C03-9", "the comparison after the command uses the hashes verified at run start", rule_after_baseline, min_instances=11),
     Rule("R-C03-8", "amend-time, defer-time and report-time predicates agree", rule_three_predicates, min_instances=20),
 ]
 
@@ -558,6 +575,7 @@ MUTANTS = [
     Mutant("amend-overrides-run-start-hashes", "executor.py", in_function("Executor.note_input_hashes", replace_once("            run.start_inp_hashes.setdefault(path, inp_hash)\n", "            run.start_inp_hashes[path] = inp_hash\n")), ("R-C03-9",)),
     Mutant("baseline-before-promoted-hashes", "director.py", in_function("DirectorHandler.amend_step", lambda t: t.replace("        # The step may read the amended inputs from here on.\n        # What they look like now is what the check after the command has to compare with.\n        async with self.db:\n            inp_hashes = {\n                record.path: record.hash\n                for record in step.inp_paths()\n                if record.state in (FileState.BUILT, FileState.CONFIRMED)\n            }\n        self.executor.note_input_hashes(job_i, inp_hashes)\n", "", 1).replace("        if to_check:\n", "        async with self.db:\n            inp_hashes = {\n                record.path: record.hash\n                for record in step.inp_paths()\n                if record.state in (FileState.BUILT, FileState.CONFIRMED)\n            }\n        self.executor.note_input_hashes(job_i, inp_hashes)\n        if to_check:\n", 1) if "self.executor.note_input_hashes(job_i, inp_hashes)" in t and "        if to_check:\n" in t else None), ("R-C03-9",)),
     Mutant("run-start-arm-state-filtered", "executor.py", in_function("Executor._compute_full_step_hash", replace_once('            inp_hashes = {}\n            for rec in run.step.inp_paths():\n                if rec.path in run.start_inp_hashes:\n                    inp_hashes[rec.path] = run.start_inp_hashes[rec.path]\n                elif rec.state in (FileState.BUILT, FileState.CONFIRMED):\n                    inp_hashes[rec.path] = rec.hash\n', "            inp_hashes = {\n                rec.path: run.start_inp_hashes.get(rec.path, rec.hash)\n                for rec in run.step.inp_paths()\n                if rec.state in (FileState.BUILT, FileState.CONFIRMED)\n            }\n")), ("R-C03-9",)),
+    Mutant("baseline-keeps-dropped-inputs", "executor.py", in_function("Executor.execute_job", lambda t: t.replace("            run.start_inp_hashes = {\n                path: inp_hash\n                for path, inp_hash in run.start_inp_hashes.items()\n                if path in current\n            }\n", "", 1) if "if path in current" in t else None), ("R-C03-9",)),
     Mutant("await-in-completion", "executor.py", in_function("Executor.execute_job", replace_once("            run.interrupted_defer = step.mark_completed(new_hash, wants_defer)\n", "            run.interrupted_defer = step.mark_completed(new_hash, wants_defer)\n            await asyncio.sleep(0)\n")), ("R-C03-4",)),
     Mutant("stop-clock-after-region", "executor.py", in_function("Executor.execute_job", lambda s: s.replace("            self.scheduler.record_run_stopped(step.i, succeeded=new_hash is not None)\n", "", 1).replace("        self._report_step_counts()\n\n        # Report the result of running the step\n", "        self.scheduler.record_run_stopped(step.i, succeeded=new_hash is not None)\n        self._report_step_counts()\n\n        # Report the result of running the step\n", 1) if "# Report the result of running the step" in s else None), ("R-C03-4",)),
     Mutant("unconfirmed-accepted", "workflow.py", in_function("Workflow.amend_step", replace_once("            elif availability == Availability.UNCONFIRMED:\n                unconfirmed.add(info.file)\n", "            elif availability == Availability.UNCONFIRMED:\n                pass\n")), ("R-C03-5",)),
